@@ -8,7 +8,7 @@ META = {
     "text": "TLC enumerates every scripted resolver-daemon conversation (continuing replies then one deciding or faulty reply, "
             "length <= 3 quick / 4 thorough, incl. the eight non-authentication replies, undecodable and truncated frames and "
             "disconnects) x module options x the PAM application's answers that matter, and every fallback situation (passwd/shadow "
-            "presence x 9 hash kinds x expiry x typed password x options), and checks the transcription of sm_authenticate_connected / "
+            "presence x 9 hash kinds x 7 expiry classes incl. 1 s / 12 h / 24 h - 1 s after expiry x typed password x options), and checks the transcription of sm_authenticate_connected / "
             "sm_authenticate_fallback (L2) against the property (L1: SUCCESS only after an explicit daemon Success, or on the "
             "fallback path with a supported hash that verifies and an unexpired account). Every enumerated case runs on the real "
             "pam_sparkle_common core: a real DaemonClientBlocking over a real unix socket to a scripted daemon thread, resp. "
